@@ -1,7 +1,7 @@
 """Configuration of ./check C10 (see pylib/props.py)."""
 CFG = dict(
-        coq=["props/C10.vo", "props/Compose.vo"],
-        compose=['Compose_is_ancestor', 'Compose_seek', 'Compose_forward_only', 'Compose_log_true', 'Compose_merge_ok', 'Compose_pull_ok', 'Compose_fetch_ok', 'Compose_push_ok', 'Compose_store_closed'],
+        coq=["props/C10.vo", "props/Compose.vo", "props/Compose3.vo"],
+        compose=['Compose_is_ancestor', 'Compose_seek', 'Compose_forward_only', 'Compose_log_true', 'Compose_merge_ok', 'Compose_pull_ok', 'Compose_fetch_ok', 'Compose_push_ok', 'Compose_store_closed', 'Compose_refsql_trace', 'Compose_refsql_history', 'Compose_refsql_log', 'Compose_refsql_forward', 'Compose_refsql_initial'],
         tie=["gen/Tie_C10.vo"],
         model_vo=["model/RefUpdate.vo"],
         extract="Ex_C10",
